@@ -319,6 +319,10 @@ class Gen:
                     return k("(rw_first_token %s)" % v, "opt:token")
                 if m == "children_with_tokens":
                     return k("(rw_children_with_tokens %s)" % v, "iter:elem")
+                if m == "text_range":          # SyntaxNode::text_range: the range of the whole node
+                    return k("(rw_text_range %s)" % v, "range")
+                if m == "kind":                # SyntaxNode::kind
+                    return k("(rw_kind %s)" % v, "kind")
             if t == "token" and not args and m in ("text", "text_range", "kind"):
                 return k("(rw_%s %s)" % (m, v), {"text": "text", "text_range": "range", "kind": "kind"}[m])
             if t == "elem" and not args and m == "kind":
